@@ -50,6 +50,8 @@ func cmdCheck(args []string) int {
 	keep := fs.Bool("keep", false, "keep SMT files")
 	timeout := fs.Int("timeout", 0, "per-obligation timeout (s)")
 	mods := fs.String("mods", "", "comma-separated module dirs (default distsys)")
+	updHints := fs.Bool("update-hints", false, "record unsat cores of the proved obligations in <verif>/hints.json")
+	noHints := fs.Bool("no-hints", false, "ignore <verif>/hints.json")
 	fs.Parse(args)
 	eng := newEngine(*repo, *verif+"/specs")
 	eng.verbose = *verbose
@@ -66,6 +68,11 @@ func cmdCheck(args []string) int {
 		return 2
 	}
 	eng.workDir = wd
+	if !*noHints {
+		eng.hints = loadHints(*verif + "/hints.json")
+		eng.updateHints = *updHints
+		defer eng.hints.save()
+	}
 	if !*keep {
 		defer os.RemoveAll(wd)
 	} else {
